@@ -182,3 +182,19 @@ theorem roundtrip_all (S : Schema) (hwf : WFSchema S) :
       | exact h1 rfl rfl | exact h2 _ _ _ _ rfl rfl
 
 end Tongo.Tl
+
+namespace Tongo.Tl
+
+/-- the encoder is defined exactly on the well-typed values (for any schema) -/
+theorem encode_isSome_iff_hasType (S : Schema) :
+    (∀ t v, (encode S t v).isSome = hasType S t v) ∧
+    (∀ t vs, (encodeItems S t vs).isSome = itemsHaveType S t vs) ∧
+    (∀ fields env vs, (encodeFields S fields env vs).isSome = fieldsHaveType S fields env vs) := by
+  apply encode.mutual_induct S
+  all_goals intros
+  all_goals first
+    | (simp_all [encode, encodeItems, encodeFields, hasType, itemsHaveType, fieldsHaveType]; done)
+    | skip
+  all_goals (rename_i h; simp only [encode, hasType, h, if_false, Option.isSome_none]; simp)
+
+end Tongo.Tl
